@@ -2,7 +2,9 @@
 // Reads case lines on stdin (or from the file given as 2nd argument), writes one observation line
 // per case on stdout. The first field of a case line selects the executor.
 mod cv;
+mod bs;
 mod mq;
+mod tp;
 mod rp;
 mod util;
 
@@ -66,6 +68,8 @@ fn main() {
             "rp" => rp::run_case(&f),
             "cv" => cv::run_case(&mut servers, &f),
             "mq" => mq::run_case(&f),
+            "tp" => tp::run_case(&f),
+            "bs" => bs::run_case(&f),
             other => format!("UNKNOWN-EXECUTOR {}", other),
         };
         writeln!(out, "{}", obs).unwrap();
